@@ -181,11 +181,22 @@ def _decorate_namespace_function(
         bases_accept_all = False
         for base in bases:
             if _defines(base, key):
-                bases_have_func = True
-
                 # Check if there is a checker function in the base class
                 base_func = getattr(base, key)
                 base_contract_checker = icontract._checkers.find_checker(func=base_func)
+
+                # (a class method is looked up as a method bound to the base)
+                if base_func is func or (
+                    base_contract_checker is not None
+                    and getattr(base_contract_checker, "__func__", base_contract_checker)
+                    is contract_checker
+                ):
+                    # The member is taken over from this base as it is (e.g., ``m = Base.m``): there is nothing
+                    # to inherit, and collapsing the contracts of the function with themselves would change
+                    # the contracts of the base.
+                    continue
+
+                bases_have_func = True
 
                 # Ignore functions which don't have preconditions or postconditions
                 if base_contract_checker is not None:
@@ -295,10 +306,20 @@ def _decorate_namespace_property(
                 if base_func is None:
                     continue
 
-                bases_have_func = True
-
                 # Check if there is a checker function in the base class
                 base_contract_checker = icontract._checkers.find_checker(func=base_func)
+
+                if base_func is func or (
+                    base_contract_checker is not None
+                    and base_contract_checker
+                    is icontract._checkers.find_checker(func=func)
+                ):
+                    # The accessor is taken over from this base as it is (e.g., ``@Base.prop.setter`` keeps
+                    # the getter of the base): there is nothing to inherit, and collapsing the contracts of
+                    # the accessor with themselves would change the contracts of the base.
+                    continue
+
+                bases_have_func = True
 
                 # Ignore functions which don't have preconditions or postconditions
                 if base_contract_checker is not None:
